@@ -4,7 +4,7 @@ import ast
 import re
 from fractions import Fraction as F
 
-from .. import bary, dualasm, idxspace, roles, shapesets as S
+from .. import bary, baryvert, dualasm, idxspace, roles, shapesets as S
 from ..core import AnalysisError
 from ..src import unparse
 
@@ -568,6 +568,7 @@ def run(ctx):
     compat(ctx)
     idxspace.index_spaces(ctx)
     dualasm.dual1_assembly(ctx)
+    baryvert.barycentric_vertices(ctx)
 
 
 def _builder_chains(fn):
